@@ -34,7 +34,9 @@ CATV = {"base": 1, "ligature": 2, "mark": 3, "component": 4, "unassigned": 0, "b
 
 
 def coord(rng):
-    return rng.choice([Fr(rng.randint(-100, 900)), Fr(rng.randint(-200, 1800), 2), Fr(rng.randint(0, 3600), 4)])
+    # boundary values on purpose: exactly 0, values that round to 0, negative
+    return rng.choice([Fr(rng.randint(-100, 900)), Fr(rng.randint(-200, 1800), 2), Fr(rng.randint(0, 3600), 4),
+                       rng.choice([Fr(0), Fr(0), Fr(1, 4), Fr(-1, 4), Fr(-1, 2), Fr(-1)])])
 
 
 def gen(rng):
